@@ -37,20 +37,24 @@ E2_TRUSTED = ["rustc nightly -Zunpretty=mir dump of the current working tree (re
 class Native:
     """The real crate, executed natively (dev and release profile)."""
 
-    def __init__(self):
+    def __init__(self, features=()):
         self.bins = {}
+        self.features = tuple(features)
 
     def build(self):
+        tdir = "native_target" + "".join("_" + f for f in self.features)
         for profile in ("dev", "release"):
             env = dict(os.environ)
             env["CARGO_NET_OFFLINE"] = "true"
-            env["CARGO_TARGET_DIR"] = os.path.join(BUILD, "native_target")
+            env["CARGO_TARGET_DIR"] = os.path.join(BUILD, tdir)
             env.pop("RUSTFLAGS", None)
             cmd = ["cargo", "build", "--offline", "-q"] + (["--release"] if profile == "release" else [])
+            if self.features:
+                cmd += ["--features", ",".join(self.features)]
             r = subprocess.run(cmd, cwd=NATIVE_DIR, env=env, stdout=subprocess.PIPE, stderr=subprocess.STDOUT, text=True)
             if r.returncode != 0:
                 raise RuntimeError("native oracle build failed: " + r.stdout[-2000:])
-            self.bins[profile] = os.path.join(BUILD, "native_target", "debug" if profile == "dev" else "release",
+            self.bins[profile] = os.path.join(BUILD, tdir, "debug" if profile == "dev" else "release",
                                               "pp_verif_native")
 
     def run(self, requests, profile="dev"):
@@ -106,9 +110,10 @@ def show(v):
 
 
 class E2:
-    def __init__(self, rep, tier):
+    def __init__(self, rep, tier, features=()):
         self.rep = rep
         self.tier = tier
+        self.features = tuple(features)
         self.cap_ms = int(os.environ.get("VERIF_SMT_CAP_MS", "20000" if tier == "quick" else "300000"))
         mf = os.environ.get("VERIF_MIR_FILE")
         if mf and os.path.exists(mf):
@@ -117,10 +122,10 @@ class E2:
                 d = json.load(f)
             mir, sources = d["mir"], d["sources"]
         else:
-            mir, sources = mirdump.dump()
+            mir, sources = mirdump.dump(self.features)
         self.mir_text, self.sources = mir, sources
         self.program = Program(mir, sources)
-        self.native = Native()
+        self.native = Native(self.features)
         self.smt2_dir = os.path.join(BUILD, "smt2", rep.prop)
         for t in E2_TRUSTED:
             if t not in rep.trusted_base:
